@@ -380,6 +380,19 @@ func TestExhaustive(t *testing.T) {
 // ---- random graphs ----------------------------------------------------------
 
 func drawGraph(t *rapid.T) gCase {
+	// a root on its own (nothing could be resolved): several node errors and
+	// self loops, whose order is all there is to canonicalise
+	if rapid.IntRange(0, 11).Draw(t, "loneroot") == 0 {
+		c := gCase{Nodes: []string{"a@1"}, Perm: []int{0}}
+		for i, ns := 0, rapid.IntRange(0, 4).Draw(t, "nself"); i < ns; i++ {
+			c.Edges = append(c.Edges, gEdge{From: 0, To: 0, Req: rapid.SampledFrom([]string{"*", "^1", "~2"}).Draw(t, "sreq"), Type: rapid.SampledFrom([]string{"", "dev", "opt", "scope:peer"}).Draw(t, "sty")})
+		}
+		for i, ne := 0, rapid.IntRange(0, 4).Draw(t, "nrooterr"); i < ne; i++ {
+			c.Errors = append(c.Errors, gErr{Node: 0, Req: rapid.SampledFrom([]string{"x", "y", "z"}).Draw(t, "rer"), Err: rapid.SampledFrom([]string{"boom", "bang"}).Draw(t, "ree")})
+		}
+		c.EPerm = rapid.Permutation(ident(len(c.Edges))).Draw(t, "seperm")
+		return c
+	}
 	n := rapid.IntRange(2, 40).Draw(t, "n")
 	if rapid.IntRange(0, 2).Draw(t, "small") > 0 {
 		n = rapid.IntRange(2, 9).Draw(t, "nsmall")
